@@ -336,7 +336,7 @@ func (f *refTable) apply(o op, id string, out outcome, post snap) string {
 			wantOK = false
 		default:
 			n := cur
-			if o.Mask != "title" {
+			if o.Mask != "title" && o.Mask != "empty" {
 				n = o.Normal
 			}
 			if n && f.otherNormal(id) {
@@ -426,7 +426,7 @@ func alphabet(door string, big bool) (ops []op, targets []string) {
 	masks := []string{"normal"}
 	if big {
 		targets = []string{"a0", "a1", "c0", "c1"}
-		masks = []string{"normal", "none"}
+		masks = []string{"normal", "none", "empty"}
 	}
 	d := func(kind string) string {
 		if door == "server" && hasRPC(kind) {
@@ -527,9 +527,9 @@ func genOp(rng *vk.Rand, doorMode string, targets []string, allowUpdateNormalOn 
 		o.Target = fixedIDs[rng.Intn(len(fixedIDs))]
 		o.Normal = rng.Chance(1, 3)
 	case "update":
-		o.Mask = rng.PickStr("normal", "normal", "title", "none")
+		o.Mask = rng.PickStr("normal", "normal", "title", "none", "empty")
 		o.Normal = rng.Bool()
-		if !allowUpdateNormalOn && o.Mask != "title" {
+		if !allowUpdateNormalOn && o.Mask != "title" && o.Mask != "empty" {
 			o.Normal = false
 		}
 	case "delete":
